@@ -1,0 +1,58 @@
+//go:build verif
+
+package bytecode
+
+// This file is compiled only with the build tag "verif". It exposes
+// read-only views of VM and compiler state for external conformance checks.
+
+// VerifStep, when set, is called at the top of every VM step.
+var VerifStep func(ip int, op byte, sp int)
+
+func verifStep(vm *VM, ip int, op Opcode) {
+	if VerifStep != nil {
+		VerifStep(ip, byte(op), vm.sp)
+	}
+}
+
+// VerifSP returns the VM's stack pointer.
+func (vm *VM) VerifSP() int { return vm.sp }
+
+// VerifGlobals returns the string form of every global slot ("<unset>" for
+// a slot that was never written) and its type.
+func (vm *VM) VerifGlobals() (vals []string, types []string) {
+	for _, g := range vm.globals {
+		if g == nil {
+			vals = append(vals, "<unset>")
+			types = append(types, "")
+			continue
+		}
+		vals = append(vals, g.String())
+		types = append(types, g.Type().String())
+	}
+	return vals, types
+}
+
+// VerifSymbols returns the slot index of every global variable name.
+func (c *Compiler) VerifSymbols() map[string]int {
+	s := c.symbolTable
+	for s.outer != nil {
+		s = s.outer
+	}
+	out := map[string]int{}
+	for name, sym := range s.store {
+		if sym.Scope == GlobalScope {
+			out[name] = sym.Index
+		}
+	}
+	return out
+}
+
+// VerifDepth returns how many symbol tables are still nested on top of the
+// global one.
+func (c *Compiler) VerifDepth() int {
+	n := 0
+	for s := c.symbolTable; s.outer != nil; s = s.outer {
+		n++
+	}
+	return n
+}
